@@ -13,6 +13,7 @@ import (
 	"strings"
 	"time"
 
+	"github.com/brutella/hc/accessory"
 	"github.com/brutella/hc/characteristic"
 	"github.com/brutella/hc/service"
 
@@ -474,7 +475,30 @@ func c15Run(c *fw.Ctx) {
 			rep("interference/characteristics-changed/"+k.name, fmt.Sprintf("%s: its characteristics are [%s] right after construction but [%s] once other services have been constructed", k.name, want, strings.Join(ts, ",")))
 		}
 	}
-	// 4. accessories
+	// 4. accessories — built from a complete Info and from an Info that has nothing but a name
+	fullInfo := catalog.InfoTemplate
+	defer func() { catalog.InfoTemplate = fullInfo }()
+	for pass, info := range []accessory.Info{fullInfo, {Name: "Bare"}} {
+		catalog.InfoTemplate = info
+		if pass == 1 {
+			orig := rep
+			rep = func(sig, desc string) {
+				orig(sig+"/info-with-name-only", desc+" (built from an Info with nothing but a name)")
+			}
+		}
+		c15Accessories(c, md, rep)
+	}
+	catalog.InfoTemplate = fullInfo
+	c15Usable(c, rep)
+	c.Sample(map[string]interface{}{"constructor": "characteristic.NewOn", "type": chars["NewOn"]})
+	c.Extra("metadata_characteristics", int64(len(md.Characteristics)))
+	c.Extra("metadata_services", int64(len(md.Services)))
+	c.Extra("characteristic_constructors", int64(len(catalog.CharacteristicCtors)))
+	c.Extra("service_constructors", int64(len(catalog.ServiceCtors)))
+	c.Extra("accessory_constructors", int64(len(catalog.AccessoryCtors)))
+}
+
+func c15Accessories(c *fw.Ctx, md *metadata, rep func(sig, desc string)) {
 	for _, ct := range catalog.AccessoryCtors {
 		c.Eval(1)
 		v, err := c15Build(ct)
@@ -516,13 +540,6 @@ func c15Run(c *fw.Ctx) {
 			rep("ctor-unencodable/accessory."+ct.Name, ct.Name+": "+err.Error())
 		}
 	}
-	c15Usable(c, rep)
-	c.Sample(map[string]interface{}{"constructor": "characteristic.NewOn", "type": chars["NewOn"]})
-	c.Extra("metadata_characteristics", int64(len(md.Characteristics)))
-	c.Extra("metadata_services", int64(len(md.Services)))
-	c.Extra("characteristic_constructors", int64(len(catalog.CharacteristicCtors)))
-	c.Extra("service_constructors", int64(len(catalog.ServiceCtors)))
-	c.Extra("accessory_constructors", int64(len(catalog.AccessoryCtors)))
 }
 
 // c15Usable: "returns a usable object".
